@@ -250,13 +250,18 @@ Definition perm_merge_ok (d0 : disk) (recs : list record) : bool :=
       end
   end.
 
+(* removal of a temp database (cleanRemoved, RemoveBlocks -> TempLeveldb.Remove -> RemoveByPrefix): ONE batch that
+   deletes every key of the prefix *)
+Definition is_clear_record (r : record) : bool :=
+  match r with (ATemp _ _, [Clear]) => true | _ => false end.
+
 (* an operation of the commit path and the discipline of its records *)
 Inductive span_kind := SBlockWrite | SPermMerge | SRemoveTemp.
 Definition op_ok (kind : span_kind) (d0 : disk) (recs : list record) : bool :=
   match kind with
   | SBlockWrite => block_write_ok d0 recs
   | SPermMerge => perm_merge_ok d0 recs
-  | SRemoveTemp => Nat.leb (length recs) 1
+  | SRemoveTemp => Nat.leb (length recs) 1 && forallb is_clear_record recs
   end.
 
 (* ---- correspondence: the records of a real run, the operation spans, and crash states with observed reads *)
@@ -276,7 +281,7 @@ Definition span_ok (recs : list record) (sp : span_kind * nat * nat) : bool :=
   match kind with
   | SBlockWrite => block_write_ok d0 rs
   | SPermMerge => perm_merge_ok d0 rs
-  | SRemoveTemp => true      (* each record removes one temp prefix; one record = one atomic write *)
+  | SRemoveTemp => forallb is_clear_record rs   (* each record removes one whole temp prefix *)
   end.
 
 Definition point := (nat * list nat * list (query * Z))%type.
